@@ -23,6 +23,7 @@ import (
 type C03Case struct {
 	gen.Case
 	Adversarial bool `json:"adversarial"`
+	NonASCII    bool `json:"non_ascii"`
 	Stride      int  `json:"stride"` // 1 = complete neighbourhood
 }
 
@@ -46,6 +47,18 @@ func genC03(t *rapid.T) *C03Case {
 		cc.Case = *gen.Populate(t, tpl, po)
 	} else {
 		cc.Case = *gen.GenCase(t, o, po)
+	}
+	if cc.Tpl.Fix44 == "" && rapid.IntRange(0, 9).Draw(t, "nonASCII") < 3 {
+		// bytes >= 0x80 (lone Latin-1 bytes, UTF-8 sequences): a checksum that
+		// sums anything but bytes shows here
+		used := map[string]bool{}
+		for _, x := range gen.AllTags(&cc.Tpl) {
+			used[x] = true
+		}
+		v := &gen.Val{Route: gen.RCtor, S: []byte(rapid.SampledFrom([]string{"caf\xe9", "Gr\xc3\xbc\xc3\x9fe", "100\xe2\x82\xac", "\xff\xfe", "\xe9\xe8"}).Draw(t, "nonASCIIVal"))}
+		cc.Tpl.Body = append(cc.Tpl.Body, &gen.Node{K: gen.KField, Tag: freshTag(used, 6100), T: gen.TString})
+		cc.Body = append(cc.Body, &gen.Pop{V: v})
+		cc.NonASCII = true
 	}
 	if cc.Tpl.Fix44 == "" && rapid.IntRange(0, 9).Draw(t, "adversarial") < 4 {
 		used := map[string]bool{}
@@ -171,6 +184,9 @@ func checkC03(cc *C03Case, rec *evid.Rec) (vs []pbt.Violation) {
 	rec.Case(evid.FP(base), stride == 1)
 	if cc.Adversarial {
 		rec.Hist("adversarial-base")
+	}
+	if cc.NonASCII {
+		rec.Hist("non-ascii-base")
 	}
 	rec.Hist(fmt.Sprintf("base-length=%d0s", len(base)/10))
 	if cc.Tpl.Tags != ref.StdTags {
